@@ -1241,6 +1241,13 @@ class MindsDBParser(Parser):
                     join_type=JoinType.INNER_JOIN,
                     implicit=True)
 
+    @staticmethod
+    def _quoted_alias(value):
+        # a quoted alias is one name: dots inside the quotes do not split it
+        if value == '':
+            raise ParsingException('Empty name in identifier')
+        return Identifier(parts=[value])
+
     @_('from_table AS identifier',
        'from_table identifier',
        'from_table AS dquote_string',
@@ -1253,7 +1260,7 @@ class MindsDBParser(Parser):
                 raise ParsingException('Alias can not contain multiple parts (dots).')
             entity.alias = p.identifier
         if hasattr(p, 'dquote_string'):
-            entity.alias = Identifier(p.dquote_string)
+            entity.alias = self._quoted_alias(p.dquote_string)
         return entity
 
     # native query
@@ -1339,9 +1346,9 @@ class MindsDBParser(Parser):
         # if col.alias:
         #     raise ParsingException(f'Attempt to provide two aliases for {str(col)}')
         if hasattr(p, 'dquote_string'):
-            alias = Identifier(p.dquote_string)
+            alias = self._quoted_alias(p.dquote_string)
         elif hasattr(p, 'quote_string'):
-            alias = Identifier(p.quote_string)
+            alias = self._quoted_alias(p.quote_string)
         else:
             alias = p.identifier
         if len(alias.parts) > 1:
